@@ -36,8 +36,11 @@ def main():
             t0 = time.time()
             rc_chk, out = sh(f'cd {ROOT} && ./check {prop} --tier quick', timeout=3000)
             meta['check_with_change'] = {'cmd': f'./check {prop} --tier quick', 'exit': rc_chk, 'secs': round(time.time() - t0, 1),
-                                         'violation_lines': [l for l in out.splitlines() if l.startswith('VIOLATION')][:8],
-                                         'detail': [l for l in out.splitlines() if l.startswith('  ')][:8],
+                                         # failed deductive obligations first, then the bounded stand-in's reports
+                                         'violation_lines': ([l for l in out.splitlines() if l.startswith('VIOLATION') and '-bounded-' not in l][:6]
+                                                             + [l for l in out.splitlines() if l.startswith('VIOLATION') and '-bounded-' in l][:4]),
+                                         'failed_obligations': [l.strip() for l in out.splitlines() if l.startswith('  failed obligation:')][:6],
+                                         'detail': [l for l in out.splitlines() if l.startswith('  ') and not l.startswith('  failed obligation:')][:6],
                                          'other': [l[:300] for l in out.splitlines() if l.startswith(('UNDECIDED', 'CHECKER-ERROR'))][:4]}
         finally:
             sh('git -C /repo checkout -- .')
